@@ -5,7 +5,7 @@ al = VerusUnit("al_astar", "al_astar", rlimit=60)
 CORE = "routee-compass-core"
 wit = KaniUnit("c01_wit", CORE, modules=[dict(file=CORE + "/src/algorithm/search/search_instance.rs", src="world.rs"),
                                           dict(file=CORE + "/src/algorithm/search/search_algorithm.rs", src="c01_wit.rs")], harnesses=[])
-wit.native_witnesses = ["c01_wit_box_world_all_pairs", "c01_wit_edge_oriented_destination_head_already_in_tree", "c01_wit_edge_oriented_adjacent", "c01_wit_single_via_routes_are_walks", "c03_wit_ksp_routes_report_their_own_retraversal", "c01_wit_ksp_edge_oriented_routes_are_walks"]
+wit.native_witnesses = ["c01_wit_box_world_all_pairs", "c01_wit_edge_oriented_destination_head_already_in_tree", "c01_wit_edge_oriented_origin_tail_on_the_connecting_path", "c01_wit_edge_oriented_adjacent", "c01_wit_single_via_routes_are_walks", "c03_wit_ksp_routes_report_their_own_retraversal", "c01_wit_ksp_edge_oriented_routes_are_walks"]
 bt = VerusUnit("c01_backtrack", "c01_backtrack", rlimit=60)
 eo = VerusUnit("c01_edge_oriented", "c01_edge_oriented", rlimit=60, paired_kani=(wit, []))
 sv = VerusUnit("c13_single_via", "c13_single_via", rlimit=60, paired_kani=(wit, []))
